@@ -401,15 +401,26 @@ func runC05E2E(t *testing.T, rng *rand.Rand, rec *sim.Rec, tier string, caseNo i
 	// a second socket on the peer's host that the client never writes to: its datagrams are
 	// admitted by the host's permission and travel in Data indications, never in ChannelData
 	alt, _ := w.NewPeer("alt", peer.Addr.IP, 7900)
+	// ... and the same on a second host the client has written to once (its own permission): the
+	// datagrams of the two hosts queue up at the client before the application reads them
+	host2, _ := w.NewPeer("host2", net.IPv4(10, 2, 0, 2).To4(), 7000)
+	alt2, _ := w.NewPeer("alt2", net.IPv4(10, 2, 0, 2).To4(), 7900)
+	twoHosts := false
 	indications := func(phase string) {
 		n := 1 + rng.Intn(6)
 		var sent [][]byte
+		var senders []*sim.Peer
 		for i := 0; i < n; i++ {
 			l := pick(rng, []int{0, 1, 5, 40, 1200})
 			a := make([]byte, l)
 			rng.Read(a)
 			sent = append(sent, a)
-			_, _ = alt.UDP.WriteTo(a, relay)
+			from := alt
+			if twoHosts && i%2 == 1 {
+				from = alt2
+			}
+			senders = append(senders, from)
+			_, _ = from.UDP.WriteTo(a, relay)
 		}
 		time.Sleep(50 * time.Millisecond)
 		buf := make([]byte, 2000)
@@ -421,8 +432,8 @@ func runC05E2E(t *testing.T, rng *rand.Rand, rec *sim.Rec, tier string, caseNo i
 
 				return
 			}
-			if !bytes.Equal(buf[:k], sent[i]) || from.String() != alt.Addr.String() {
-				rec.Violate("e2e-altered", phase+"/data-indication", "datagram %d from %s: ReadFrom returned %d bytes %x from %s", i, alt.Addr, k, head(buf[:k]), from)
+			if !bytes.Equal(buf[:k], sent[i]) || from.String() != senders[i].Addr.String() {
+				rec.Violate("e2e-altered", phase+"/data-indication", "datagram %d from %s: ReadFrom returned %d bytes %x from %s", i, senders[i].Addr, k, head(buf[:k]), from)
 
 				return
 			}
@@ -430,8 +441,14 @@ func runC05E2E(t *testing.T, rng *rand.Rand, rec *sim.Rec, tier string, caseNo i
 		rec.EvN("e2e-data-indications-compared", n)
 	}
 	_, _ = conn.WriteTo([]byte("open"), peer.Addr) // permission + first ChannelBind attempt
+	if relay.IP.To4() != nil && caseNo%3 != 0 {
+		if _, err := conn.WriteTo([]byte("open-2"), host2.Addr); err == nil {
+			twoHosts = true
+		}
+	}
 	time.Sleep(5 * time.Millisecond)
 	peer.UDP.Drain()
+	host2.UDP.Drain()
 	burst("indications-or-early-channel")
 	indications("early")
 	time.Sleep(2 * time.Second) // the binding is confirmed by now
